@@ -340,9 +340,18 @@ func (in *interpreter) slice(x, lo, hi, max value) value {
 func (in *interpreter) lookup(instr *ssa.Lookup, x, idx value) value {
 	switch x := x.(type) { // map or string
 	case *gmap:
+		zv := zero(instr.X.Type().Underlying().(*types.Map).Elem())
+		if in.path != nil {
+			if sv, sok, handled := x.lookupScalar(in, idx, zv); handled {
+				if instr.CommaOk {
+					return tuple{sv, sok}
+				}
+				return sv
+			}
+		}
 		v, ok := x.lookup(in, idx)
 		if !ok {
-			v = zero(instr.X.Type().Underlying().(*types.Map).Elem())
+			v = zv
 		}
 		if instr.CommaOk {
 			v = tuple{v, ok}
@@ -1061,7 +1070,7 @@ func callBuiltin(in *interpreter, caller *frame, callpos token.Pos, fn *ssa.Buil
 			if x != nil && x.lazy != nil {
 				panic(engineError{"len of lazy map"})
 			}
-			return x.len()
+			return x.lenNorm(in)
 		case chan value:
 			return len(x)
 		case sym:
@@ -1149,6 +1158,9 @@ func (in *interpreter) rangeIter(x value, t types.Type) iter {
 	case *gmap:
 		if x != nil && x.lazy != nil {
 			panic(engineError{"range over lazy map"})
+		}
+		if x != nil && x.multi && in.path != nil {
+			x.normalise(in)
 		}
 		return &gmapIter{in: in, m: x, rest: x.live()}
 	case string:
